@@ -709,7 +709,8 @@ pub fn eval_cond(c: &Cond, st: &Store) -> T3 {
 
 pub const OBJS: [&str; 3] = ["A", "B", "C"];
 /// candidate paths below an object (p is a nested object, p.q one level deeper)
-pub const SUBPATHS: [&str; 9] = ["x", "y", "n", "s", "t", "b", "a", "p.x", "p.q.s"];
+/// (`n.k` and `p.x.k` descend THROUGH a scalar: such a path is a missing field)
+pub const SUBPATHS: [&str; 11] = ["x", "y", "n", "s", "t", "b", "a", "p.x", "p.q.s", "n.k", "p.x.k"];
 
 pub struct GenCfg {
     /// allow absent fields / nulls in the store
